@@ -165,7 +165,7 @@ def check(ctx):
     row(r'\.scope$', r'ANN_SCOPE\)\[0\]$', [ann('ANN_SCOPE'), CB], '(scope) -> scope')
     row(r'\.destroy_name$', r'_get_validate_parameter_name\(.*ANN_DESTROY', [ann('ANN_DESTROY'), CB], '(destroy) -> destroy_name (validated)')
     row(r'\.closure_name$', r'_get_validate_parameter_name\(.*ANN_CLOSURE', [ann('ANN_CLOSURE'), CB], '(closure) -> closure_name (validated)')
-    row(r'^%s\.scope$' % N, r'^ast\.PARAM_SCOPE_NOTIFIED$', [ann('ANN_DESTROY')], '(destroy) implies notified scope', forbid=[(r'destroy_name is None$', True)])
+    row(r'^%s\.scope$' % N, r'^ast\.PARAM_SCOPE_NOTIFIED$', [ann('ANN_DESTROY')], '(destroy) implies notified scope', forbid=[(r'(destroy_name|_get_validate_parameter_name\(.*ANN_DESTROY.*\)) is None$', True)])
     GV = gsa.summarise(ctx, MT, 'MainTransformer._get_validate_parameter_name')
     fatal = [e for e in gsa.find(GV, 'call', r'^message\.log_node$') if any('FATAL' in a_ for a_ in e.args)]
     r2.check(any(gsa.impossible(GV, e, [(r' is None$', False), (r'^@except', False)]) and gsa.allowed(GV, e, [(r' is None$', True), (r'^@except', False)]) for e in fatal), 'dangling parameter names are fatal', rel, line_of(fatal, GV.func),
